@@ -64,6 +64,9 @@ func opKey(s opSpec) string {
 	if s.kind == "moves" {
 		k += "#moves" // analysed with the policy's helper loops inlined: a summary of its own
 	}
+	if s.kind == "admitflow" {
+		k += "#admit" // records the admission decisions
+	}
 	return k
 }
 
@@ -87,6 +90,9 @@ func (cx *Ctx) runOp(rule string, spec opSpec) *opRun {
 	// inlined together with their loops, so that the events of a stage are seen wherever it lives; callees that are
 	// summarised as events are set below and stay summarised
 	stageHelpers := newHelpersOf(fn)
+	if spec.kind == "admitflow" {
+		ps.alsoRelevant = []string{"res:Admit#"}
+	}
 	if spec.kind == "setExp" || spec.kind == "setRefr" {
 		// the decision to leave a deadline as it is must be a function of that deadline: record such comparisons
 		ps.alsoRelevant = []string{"ExpiresAt(", "RefreshableAt(", "param:expiresAfter", "param:refreshableAfter"}
